@@ -244,6 +244,24 @@ def check_select(k, tier, acc):
                         break
                     if len(set((F @ w).tolist())) >= 2:
                         acc.nontriv((ast, pi))
+    # the same configurator object asked twice: same ids (and order) in the dictionaries, other values
+    try:
+        clear_caches()
+        cfg3, _ = bind(ast)
+        cap1, cap2 = cfgspace.Capture("none"), cfgspace.Capture("none")
+        list(cfg3.select(*[dict(p) for p in prios], solver=cap1))
+        prios2 = [{i: (-v if n % 2 else v + 1) for n, (i, v) in enumerate(p.items())} for p in prios]
+        list(cfg3.select(*[dict(p) for p in prios2], solver=cap2))
+        acc.n("transitions", 2)
+        for pi, (prio, ov) in enumerate(zip(prios2, cap2.calls[0][1])):
+            u = [prio.get(i, 0) for i in ids]
+            want = np.asarray(pnd.integer_ndarray(np.array([[dpv.tolist(), u]], dtype=np.int64)).ndint_compress(method="shadow", axis=0))[0]
+            if np.asarray(ov).tolist() != want.tolist():
+                acc.violation(None, dict(case, second_call=True, pi=pi), {"what": "second select() on the same configurator: objective != shadow compression of [default prios; user prios aligned by id]",
+                                                                         "first_prios": prios[pi], "second_prios": prio, "got": np.asarray(ov).tolist(), "want": want.tolist()})
+                break
+    except BaseException as e:
+        acc.violation(None, dict(case, second_call=True), {"what": "second select() raised", "exc": repr(e)})
     if k % 100 == 0:
         acc.sample({"configurator": name, "columns": list(map(str, ids)), "leafs": list(map(str, leaf_ids)), "prios": prios[30]})
 
